@@ -25,6 +25,9 @@ def configs(tier):
     ]
 
 
+ALL_PCS = {"sp_entry", "sp_pre_detach", "sp_do_detach", "sp_post_detach", "sp_pre_attach", "sp_do_attach", "sp_post_attach",
+           "dc_entry", "dc_loop", "dc_post", "sc_entry", "sc_after_del", "sc_loop", "sc_post", "sc_handler", "sc_reraise",
+           "ct_entry", "ct_children", "ct_done"}
 THEOREMS = ("Thm_C01", "Thm_C02", "Thm_C03", "Thm_C16", "Thm_Outcome", "Thm_Recursion", "Thm_Indep")
 
 
@@ -49,7 +52,9 @@ def _replay(lines, families, asrt, lockstep, repo, procs=16):
         parts = p.map(ops_replay.replay_chunk, [(ch, families, lockstep) for ch in core.chunks(lines, size)])
     tot = {"n": 0, "same": 0, "known": {}, "attention": [], "per_family": {}, "recursion": 0, "lockstep_diff": [],
            "dropped": 0}
+    tot["pcs"] = set()
     for r in parts:
+        tot["pcs"] |= set(r.get("pcs", ()))
         tot["dropped"] += r["dropped"]
         tot["n"] += r["n"]
         tot["same"] += r["same"]
@@ -86,6 +91,10 @@ def run(tier, repo=None, only=None):
             tot = _replay(lines, fams, asrt, [PLAIN], repo)
             tot.update(config=c, asrt=asrt, tlc=stats, families=fams, vectors=len(lines))
             outcomes.append(tot)
+            missing = ALL_PCS - tot["pcs"] - (set() if c["WithCtor"] else {"ct_entry", "ct_children", "ct_done"})
+            if missing:
+                # vacuity control: a model run that never reaches a program point of the interpreter proves nothing about it
+                raise T.MachineryError("%s: program points of NodeOps!Step never exercised by the model: %s" % (c["name"], sorted(missing)))
         # the other class families on a seeded sample (all of them in the thorough tier's main configuration)
         k = c["sample_others"]
         off = rnd.randrange(k)
